@@ -49,11 +49,15 @@ ASSUMPTIONS = [
 MIN_COUNTERS = {
     'quick': {'sequences_compared': 8000, 'interleaved_pairs_compared': 8000,
               'snapshots_compared': 8000, 'values_compared': 80000,
-              'random_leaf_runs': 400, 'infinite_expressions': 800},
+              'random_leaf_runs': 400, 'infinite_expressions': 800,
+              'concurrent_seeded_streams_compared': 400,
+              'concurrent_seeded_values_compared': 20000},
     'thorough': {'sequences_compared': 500000,
                  'interleaved_pairs_compared': 500000,
                  'snapshots_compared': 500000, 'values_compared': 5000000,
-                 'random_leaf_runs': 20000, 'infinite_expressions': 50000},
+                 'random_leaf_runs': 20000, 'infinite_expressions': 50000,
+                 'concurrent_seeded_streams_compared': 10000,
+                 'concurrent_seeded_values_compared': 500000},
 }
 
 N = 64
@@ -63,9 +67,15 @@ def plan(tier, seed):
     total = 48000 if tier == 'quick' else 7_000_000
     parts = 16
     secs = 45 if tier == 'quick' else 600
-    return [{'name': f'expr{p}', 'mode': 'nrt', 'kind': 'expr',
-             'first_case': f, 'n': n, 'secs': secs, 'hard_timeout': secs + 120}
-            for p, (f, n) in enumerate(split(total, parts))]
+    shards = [{'name': f'expr{p}', 'mode': 'nrt', 'kind': 'expr',
+               'first_case': f, 'n': n, 'secs': secs, 'hard_timeout': secs + 120}
+              for p, (f, n) in enumerate(split(total, parts))]
+    nthr = 500 if tier == 'quick' else 40000
+    for p, (f, n) in enumerate(split(nthr, 2)):
+        shards.append({'name': f'threads{p}', 'mode': 'nrt', 'kind': 'threads',
+                       'first_case': f, 'n': n, 'secs': secs,
+                       'hard_timeout': secs + 120})
+    return shards
 
 
 # ---------------------------------------------------------------------------
@@ -222,6 +232,8 @@ def blame(node, leaves, limit=None):
 
 def run_shard(spec, acc):
     from vf import model_patterns as mp, c13_gen as gen, c13_build as cb
+    if spec['shard'].get('kind') == 'threads':
+        return run_threads(spec, acc)
     leaves = Leaves(acc)
     for i in iter_cases(spec):
         leaves.case = i
@@ -365,3 +377,188 @@ def _indep_blame(node, rng):
     except Exception:
         return node[0]
     return None
+
+
+# ---------------------------------------------------------------------------
+# seeded streams consumed by several OS threads, each thread its OWN stream:
+# every stream must give the sequence its definition gives single-threaded
+# (reference runs before and after, same process) and, for generated
+# expressions, the model's sequence.
+
+def _seeded_definition(rng, gen, leaves):
+    """(description, factory of a fresh stream-like with .next(), model or None)"""
+    from vf import model_patterns as mp, c13_build as cb
+    m = cb.mods()
+    lp, fp, vp, bi, stm = m['lp'], m['fp'], m['vp'], m['bi'], m['stm']
+    form = rng.choice(['expr', 'raw', 'raw', 'routine'])
+    if form == 'expr':
+        for attempt in range(30):
+            kind, cand = gen.gen_expr(rng)
+            if not any(n[0] == 'Pseed' for n in mp.walk(cand)):
+                continue
+            try:
+                exp, ended = mp.take(cand, N, leaves=leaves)
+            except (mp.OutOfFuel, mp.OutOfDomain, LeafBroken, Exception):
+                continue
+            if len(exp) < 4:
+                continue
+            return ('expr ' + gen.show(cand), lambda: m['stm'].stream(cb.build(cand)),
+                    N, (exp, ended))
+        form = 'raw'
+    seed = rng.randrange(10 ** 6)
+    L = rng.choice([40, 120, 300])
+    if form == 'routine':
+        which = rng.choice(['rrand', 'rand', 'choice'])
+
+        def factory():
+            def body():
+                for _ in range(L):
+                    if which == 'rrand':
+                        yield bi.rrand(0, 10 ** 6)
+                    elif which == 'rand':
+                        yield bi.rand(1.0)
+                    else:
+                        yield bi.choice([1, 2, 3, 5, 8, 13, 21])
+            r = stm.Routine(body)
+            r.rand_seed = seed
+            return r
+        return (f'Routine(rand_seed={seed}) yielding bi.{which} x{L}', factory,
+                L + 1, None)
+    shape = rng.choice(['white', 'whitef', 'rand', 'xrand', 'brown', 'sum', 'seqmix',
+                        'stutter', 'reseeded'])
+
+    def body():
+        if shape == 'white':
+            return vp.Pwhite(0, 10 ** 6, L)
+        if shape == 'whitef':
+            return vp.Pwhite(0.0, 1.0, L)
+        if shape == 'rand':
+            return lp.Prand([1, 2, 3, 5, 8, 13, 21, 34], L)
+        if shape == 'xrand':
+            return lp.Pxrand([1, 2, 3, 5, 8, 13], L)
+        if shape == 'brown':
+            return vp.Pbrown(0.0, 100.0, 1.0, L)
+        if shape == 'sum':
+            return vp.Pwhite(0, 1000, L) + vp.Pwhite(0, 10 ** 6, L)
+        if shape == 'seqmix':
+            return lp.Pseq([vp.Pwhite(0, 10 ** 6, 3), lp.Prand([1, 2, 3, 4, 5], 2),
+                            7], L // 6 + 1)
+        if shape == 'stutter':
+            return fp.Pstutter(vp.Pwhite(0, 10 ** 6, L // 2), 2)
+        return vp.Pwhite(0, 10 ** 6, 5)
+
+    def factory():
+        if shape == 'reseeded':
+            # a constant seed re-embeds the pattern forever: bounded by Plen
+            return stm.stream(fp.Plen(fp.Pseed(seed, body()), L))
+        return stm.stream(fp.Pseed(lp.Pseq([seed], 1), body()))
+    return f'Pseed({seed}) over {shape} x{L}', factory, L + 8, None
+
+
+def _pull(s, n):
+    from vf import c13_build as cb
+    StopStream = cb.mods()['stm'].StopStream
+    out = []
+    try:
+        for _ in range(n):
+            try:
+                out.append(s.next(None))
+            except StopStream:
+                break
+    except Exception as e:
+        out.append(f'raised {type(e).__name__}: {e}'[:120])
+    return out
+
+
+def run_threads(spec, acc):
+    import sys
+    import threading
+    from vf import model_patterns as mp, c13_gen as gen, c13_build as cb, inject
+    m = cb.mods()
+    from sc3.seq import eventstream as est
+    from sc3.base import main as mainmod
+    leaves = Leaves(acc)
+    codes = [inject.func_code(m['stm'].Routine.next),
+             inject.func_code(est.PatternValueStream.next),
+             inject.func_code(m['fp'].Pseed.__embed__),
+             inject.func_code(m['vp'].Pwhite.__embed__),
+             inject.func_code(m['lp'].Prand.__embed__)]
+    inj = inject.Injector(codes, seed=spec['seed'])
+    inj.max_sleep = 0.0002
+    inj.start()
+    old_si = sys.getswitchinterval()
+    try:
+        for i in iter_cases(spec):
+            leaves.case = i
+            rng = case_rng(spec['seed'], 'C13', 'threads', i)
+            nth = rng.randint(2, 4)
+            defs = [_seeded_definition(rng, gen, leaves) for _ in range(nth)]
+            before = [_pull(f(), n) for _, f, n, _ in defs]
+            streams = [f() for _, f, _, _ in defs]
+            got = [None] * nth
+            barrier = threading.Barrier(nth)
+
+            def work(k):
+                try:
+                    barrier.wait(10)
+                except threading.BrokenBarrierError:
+                    pass
+                got[k] = _pull(streams[k], defs[k][2])
+            ths = [threading.Thread(target=work, args=(k,), daemon=True)
+                   for k in range(nth)]
+            inj.p_yield = 0.04
+            sys.setswitchinterval(5e-5)
+            try:
+                for t in ths:
+                    t.start()
+                for t in ths:
+                    t.join(60)
+            finally:
+                inj.p_yield = 0.0
+                sys.setswitchinterval(old_si)
+            if any(t.is_alive() for t in ths):
+                acc.violation('C13/seeded-stream-differs/concurrent-consumers-hang',
+                              {'case': i, 'definitions': [d[0] for d in defs]})
+                # the stuck threads may hold library state: stop this shard
+                break
+            after = [_pull(f(), n) for _, f, n, _ in defs]
+            acc.count(f'concurrent_consumers_{nth}')
+            for k, (text, f, n, model) in enumerate(defs):
+                acc.count('concurrent_seeded_streams_compared')
+                acc.count('concurrent_seeded_values_compared', len(before[k]))
+                acc.count('seeded_form_' + text.split()[0].split('(')[0])
+                w = {'case': i, 'threads': nth, 'stream': k, 'definition': text,
+                     'single_threaded': before[k][:16], 'concurrent': (got[k] or [])[:16]}
+                if before[k] != after[k]:
+                    acc.violation('C13/seeded-stream-differs/'
+                                  'single-threaded-runs-differ',
+                                  dict(w, after=after[k][:16]))
+                elif got[k] != before[k]:
+                    first = next((j for j, (x, y) in enumerate(zip(got[k], before[k]))
+                                  if not mp.same_value(x, y)),
+                                 min(len(got[k]), len(before[k])))
+                    acc.violation('C13/seeded-stream-differs/concurrent-consumers',
+                                  dict(w, first_difference_at=first,
+                                       lengths=[len(before[k]), len(got[k])]))
+                if model is not None:
+                    exp, ended = model
+                    acc.count('concurrent_streams_compared_with_model')
+                    bad = compare(exp, ended, before[k][:len(exp)] if not ended
+                                  else before[k], ended, None)
+                    if bad:
+                        acc.violation('C13/seeded-stream-differs/model-' + bad,
+                                      dict(w, model=exp[:16]))
+            # the main time thread must be current again
+            if mainmod.main.current_tt is not mainmod.main.main_tt:
+                acc.violation('C13/seeded-stream-differs/current-thread-not-restored',
+                              {'case': i, 'definitions': [d[0] for d in defs]})
+                mainmod.main.current_tt = mainmod.main.main_tt
+            acc.case(h64([d[0] for d in defs]), nontrivial=True)
+            if acc.want_sample():
+                acc.sample({'case': i, 'threads': nth,
+                            'definitions': [d[0][:160] for d in defs],
+                            'values_per_stream': [len(b) for b in before]})
+    finally:
+        sys.setswitchinterval(old_si)
+        acc.counters['injected_yields'] = inj.injected
+        inj.stop()
